@@ -43,11 +43,12 @@ type c16Sched struct {
 
 func (s *c16Sched) hook(op verifSQLOp) error {
 	t := strings.ToLower(strings.TrimSpace(op.Text))
-	// gate right after a profile load has executed (its result is not yet with
-	// the handler): the handler's next segment - modify and save - runs when the
-	// scheduler releases it.  Saves are not gated themselves: they run inside
-	// the code's own critical section.
-	gated := op.Kind == "query-done" && strings.HasPrefix(t, "select profile_data")
+	// gate right after a profile load: the row has been read and the statement
+	// reset (data in the loader's hands, no database lock held); the handler's
+	// next segment - modify and save - runs when the scheduler releases it.
+	// Saves are not gated themselves: they run inside the code's own critical
+	// section.
+	gated := op.Kind == "rows-closed" && strings.HasPrefix(t, "select profile_data")
 	if !gated {
 		return nil
 	}
@@ -319,6 +320,42 @@ func c16Scenarios() []c16Scenario {
 	add("u2f-Delete|admin-manage-Update", "u2f", "Delete", func(w *c16World) verifReq {
 		return verifReq{Method: "POST", Path: "/api/v0/manageU2FToken", Form: url.Values{"username": {w.user}, "index": {fmt.Sprint(w.u2fIdx)}, "action": {"Update"}, "name": {"by admin"}}, Cookies: verifCk(w.adminCk)}
 	}, "u2f-manage:Update(admin)")
+	// an administrator deletes the user (all tokens with it) while a request of that user is between its load and its
+	// save; every run starts like a restarted daemon (stored profiles, no in-memory state)
+	gone := func(w *c16World, resps []*verifResp, f verifProfileView) string {
+		if resps[0].Code >= 400 {
+			return ""
+		}
+		for _, m := range []map[int64]verifTokView{f.U2F, f.TOTP, f.WebAuthn} {
+			for _, t := range m {
+				if t.Enabled {
+					return "the deletion of the user was acknowledged (" + fmt.Sprint(resps[0].Code) + ") but an enabled token of that user is in the final profile"
+				}
+			}
+		}
+		return ""
+	}
+	delUser := func(w *c16World) verifReq {
+		return verifReq{Method: "POST", Path: "/admin/deleteUser", Form: url.Values{"username": {w.user}}, Cookies: verifCk(w.adminCk)}
+	}
+	for _, o := range []struct {
+		label string
+		req   func(w *c16World) verifReq
+	}{
+		{"u2f-manage:Update", manage("u2f", "Update", "renamed", 1)},
+		{"totp-generate", func(w *c16World) verifReq {
+			return verifReq{Method: "POST", Path: "/totp/GenerateNew/", Cookies: verifCk(w.ck[1])}
+		}},
+		{"totp-auth", func(w *c16World) verifReq {
+			return verifReq{Method: "POST", Path: "/api/v0/TOTPAuth", Form: url.Values{"OTP": {verifTOTPCode(w.secret, time.Now())}}, Cookies: verifCk(w.ck[1])}
+		}},
+		{"u2f-register-begin", func(w *c16World) verifReq {
+			return verifReq{Method: "GET", Path: "/u2f/RegisterRequest/" + w.user, Cookies: verifCk(w.ck[1])}
+		}},
+	} {
+		sc = append(sc, c16Scenario{Name: "admin-delete-user|" + o.label, Clause: "b", Reqs: []func(w *c16World) verifReq{delUser, o.req},
+			Labels: []string{"admin-delete-user", o.label}, Judge: gone})
+	}
 	// clause (c): one-time values presented twice
 	sc = append(sc, c16Scenario{Name: "bootstrap-otp-twice", Clause: "c",
 		Setup: func(w *c16World) {
@@ -414,7 +451,7 @@ func c16Scenarios() []c16Scenario {
 }
 
 func TestVerifC16(t *testing.T) {
-	rep := newVerifReport("C16", "(1) every interleaving, at profile load/save granularity (the interposing SQL driver releases one request at a time), of pairs (and triples) of profile-touching handlers on one user: token manage Disable/Delete vs Update / register-begin / TOTP generate / TOTP auth / admin manage, and duplicates of one-time values (bootstrap OTP, TOTP code, hardware-token assertion); clause (b) acknowledged disable/delete in force in the final profile, clause (c) one-time value honoured at most once. (2) duplicates of one-time values fired simultaneously under real concurrency. class = (scenario, schedule)")
+	rep := newVerifReport("C16", "(1) every interleaving, at profile load/save granularity (the interposing SQL driver releases one request at a time), of pairs (and triples) of profile-touching handlers on one user: token manage Disable/Delete vs Update / register-begin / TOTP generate / TOTP auth / admin manage, admin delete-user vs the user's own load-modify-save requests (each run starting like a restarted daemon), and duplicates of one-time values (bootstrap OTP, TOTP code, hardware-token assertion); clause (b) acknowledged disable/delete in force in the final profile, clause (c) one-time value honoured at most once. (2) duplicates of one-time values fired simultaneously under real concurrency. class = (scenario, schedule)")
 	defer rep.Finish()
 	w, pl := newC16World(t, rep, "c16")
 	sched := &c16Sched{}
